@@ -357,6 +357,18 @@ func (s *scen) Key() string {
 	return fmt.Sprintf("%v|%v|%q|%v%v", s.inForce, s.hasLast, s.lastOK, s.delivered, s.preloaded)
 }
 
+// extensions: a complete payload followed by bytes that make the whole text undecodable (a decoder
+// that stops after the first value would accept and half-apply them)
+func extensions(ps ...string) []string {
+	var out []string
+	for _, p := range ps {
+		for _, suf := range []string{" x", "]", `":0,"threshold":7}]`, "[]", ",", "\x00", "}"} {
+			out = append(out, p+suf)
+		}
+	}
+	return out
+}
+
 func properPrefixes(p string) []string {
 	var out []string
 	for i := 1; i < len(p); i++ {
@@ -396,7 +408,7 @@ type replayDoc struct {
 func mkScen(m *mod) *scen {
 	return &scen{m: m,
 		payloads: []string{m.P1, m.P2, m.P2b, "[]", "", "[null]", m.Mixed, "[1]", `["x"]`, "{}", "null", `[{"resource":5}]`},
-		prefixes: properPrefixes(m.P2)}
+		prefixes: append(properPrefixes(m.P2), extensions(m.P1, m.P2, "[]")...)}
 }
 
 func run(c *props.Ctx) {
